@@ -107,7 +107,9 @@ def plain(v):
         return [plain(x) for x in v]
     if v is None:
         return None
-    raise TypeError(f"plain(): unexpected value {type(v)!r}")
+    # a value of a type no reader should produce (e.g. a raw bytearray as a field value): keep it comparable, so
+    # that the oracle reports a value difference instead of the harness crashing
+    return ("<unexpected>", type(v).__name__, repr(v)[:80])
 
 
 def cplain(v):
